@@ -146,3 +146,18 @@ Proof.
   - apply full_times_trailing; assumption.
 Qed.
 Print Assumptions function_signal_buffer_grid.
+
+(* scaling the samples commutes with any stack of filters (FunctionSignal multiplies by its factor before filtering) *)
+Theorem scaling_commutes_with_filters : forall dt values fs c n, (n < length values)%nat ->
+  nth n (apply_filters dt (map (fun v => v * c) values) fs) 0 = c * nth n (apply_filters dt values fs) 0.
+Proof. exact apply_filters_scaled. Qed.
+Print Assumptions scaling_commutes_with_filters.
+
+(* ONE FunctionSignal under ANY history of filter_frequencies, in-place scalings (`*=`, `/=`) and reads: what is read at the
+   end is the product of the scalings times the history's filters (in order) applied to the function's samples - in
+   particular no read in between can make a later filter or scaling ineffective *)
+Theorem function_signal_history : forall times fvals ops n, length fvals = length times -> (n < length times)%nat ->
+  nth n (fs_read times fvals (fs_run fs_init ops)) 0
+  = scale_product ops * nth n (fs_read times fvals {| fs_factor := 1; fs_filters := filters_of ops |}) 0.
+Proof. exact fs_history_lemma. Qed.
+Print Assumptions function_signal_history.
